@@ -13,6 +13,14 @@ def S(scenario, quick, thorough, label="", wall=None, **params):
     return d
 
 
+# C20, scenarios/c20b_accept2.cc: two connections reach a stream listener at nearly the same time, one of them still in
+# the SP negotiation when the allocation fails (lproto 0 PULL, 1 REP, 2 PAIR0, 3 PAIR1 listening; tr 1 tcp, 2 ipc;
+# nnga=1: the negotiating peer is an nng dialer behind simulated latency instead of a raw wire peer sending its header late).
+# 22..45 allocations per program: every k runs in the quick tier too.
+C20_ACCEPT2 = ([{"scenario": "c20_accept2", "params": {"lproto": lp, "tr": tr, "nnga": 0}} for lp in (0, 1, 2, 3) for tr in (1, 2)] +
+               [{"scenario": "c20_accept2", "params": {"lproto": lp, "tr": tr, "nnga": 1}} for lp in (0, 1, 2) for tr in (1, 2)])
+
+
 PLANS = {
     "C02": {
         "level": "exploration",
@@ -98,7 +106,7 @@ PLANS = {
         "budget_s": {"quick": 55, "thorough": 1200},
         "quick_first": 120, "quick_sample": 30,
         "enum_seeds": {"quick": 4, "thorough": 60},
-        "enum_alloc": [{'scenario': 'c20_sp', 'params': {'proto': 0, 'tr': 0}}, {'scenario': 'c20_sp', 'params': {'proto': 0, 'tr': 1}}, {'scenario': 'c20_sp', 'params': {'proto': 0, 'tr': 2}}, {'scenario': 'c20_sp', 'params': {'proto': 0, 'tr': 3}}, {'scenario': 'c20_sp', 'params': {'proto': 1, 'tr': 0}}, {'scenario': 'c20_sp', 'params': {'proto': 1, 'tr': 1}}, {'scenario': 'c20_sp', 'params': {'proto': 1, 'tr': 2}}, {'scenario': 'c20_sp', 'params': {'proto': 1, 'tr': 3}}, {'scenario': 'c20_sp', 'params': {'proto': 2, 'tr': 0}}, {'scenario': 'c20_sp', 'params': {'proto': 2, 'tr': 1}}, {'scenario': 'c20_sp', 'params': {'proto': 2, 'tr': 2}}, {'scenario': 'c20_sp', 'params': {'proto': 2, 'tr': 3}}, {'scenario': 'c20_sp', 'params': {'proto': 3, 'tr': 0}}, {'scenario': 'c20_sp', 'params': {'proto': 3, 'tr': 1}}, {'scenario': 'c20_sp', 'params': {'proto': 3, 'tr': 2}}, {'scenario': 'c20_sp', 'params': {'proto': 3, 'tr': 3}}, {'scenario': 'c20_sp', 'params': {'proto': 4, 'tr': 0}}, {'scenario': 'c20_sp', 'params': {'proto': 4, 'tr': 1}}, {'scenario': 'c20_sp', 'params': {'proto': 4, 'tr': 2}}, {'scenario': 'c20_sp', 'params': {'proto': 4, 'tr': 3}}, {'scenario': 'c20_sp', 'params': {'proto': 5, 'tr': 0}}, {'scenario': 'c20_sp', 'params': {'proto': 5, 'tr': 1}}, {'scenario': 'c20_sp', 'params': {'proto': 5, 'tr': 2}}, {'scenario': 'c20_sp', 'params': {'proto': 5, 'tr': 3}}, {'scenario': 'c20_sp', 'params': {'proto': 6, 'tr': 0}}, {'scenario': 'c20_sp', 'params': {'proto': 6, 'tr': 1}}, {'scenario': 'c20_sp', 'params': {'proto': 6, 'tr': 2}}, {'scenario': 'c20_sp', 'params': {'proto': 6, 'tr': 3}}, {'scenario': 'c20_sp', 'params': {'proto': 0, 'tr': 0, 'longurl': 1}}, {'scenario': 'c20_sp', 'params': {'proto': 1, 'tr': 3, 'longurl': 1}}, {'scenario': 'c20_sp', 'params': {'proto': 1, 'tr': 3, 'wshdr': 1}}, {'scenario': 'c20_sp', 'params': {'proto': 0, 'tr': 3, 'wshdr': 1}}, {'scenario': 'c20_sp', 'params': {'proto': 1, 'tr': 0, 'udp': 1}}, {'scenario': 'c20_sp', 'params': {'proto': 3, 'tr': 0, 'udp': 1}}, {'scenario': 'c20_sp', 'params': {'proto': 0, 'tr': 0, 'udp': 1}}, {'scenario': 'c20_init', 'params': {'no_init': 1, 'cycles': 0}}, {'scenario': 'c20_init', 'params': {'no_init': 1, 'cycles': 2}}, {'scenario': 'c20_init', 'params': {'no_init': 1, 'cycles': 0, 'expires': 3, 'pollers_n': 2}}, {'scenario': 'c20_device', 'params': {}}, {'scenario': 'c20_http', 'params': {'errpage': 0}}, {'scenario': 'c20_http', 'params': {'errpage': 1}}],
+        "enum_alloc": [{'scenario': 'c20_sp', 'params': {'proto': 0, 'tr': 0}}, {'scenario': 'c20_sp', 'params': {'proto': 0, 'tr': 1}}, {'scenario': 'c20_sp', 'params': {'proto': 0, 'tr': 2}}, {'scenario': 'c20_sp', 'params': {'proto': 0, 'tr': 3}}, {'scenario': 'c20_sp', 'params': {'proto': 1, 'tr': 0}}, {'scenario': 'c20_sp', 'params': {'proto': 1, 'tr': 1}}, {'scenario': 'c20_sp', 'params': {'proto': 1, 'tr': 2}}, {'scenario': 'c20_sp', 'params': {'proto': 1, 'tr': 3}}, {'scenario': 'c20_sp', 'params': {'proto': 2, 'tr': 0}}, {'scenario': 'c20_sp', 'params': {'proto': 2, 'tr': 1}}, {'scenario': 'c20_sp', 'params': {'proto': 2, 'tr': 2}}, {'scenario': 'c20_sp', 'params': {'proto': 2, 'tr': 3}}, {'scenario': 'c20_sp', 'params': {'proto': 3, 'tr': 0}}, {'scenario': 'c20_sp', 'params': {'proto': 3, 'tr': 1}}, {'scenario': 'c20_sp', 'params': {'proto': 3, 'tr': 2}}, {'scenario': 'c20_sp', 'params': {'proto': 3, 'tr': 3}}, {'scenario': 'c20_sp', 'params': {'proto': 4, 'tr': 0}}, {'scenario': 'c20_sp', 'params': {'proto': 4, 'tr': 1}}, {'scenario': 'c20_sp', 'params': {'proto': 4, 'tr': 2}}, {'scenario': 'c20_sp', 'params': {'proto': 4, 'tr': 3}}, {'scenario': 'c20_sp', 'params': {'proto': 5, 'tr': 0}}, {'scenario': 'c20_sp', 'params': {'proto': 5, 'tr': 1}}, {'scenario': 'c20_sp', 'params': {'proto': 5, 'tr': 2}}, {'scenario': 'c20_sp', 'params': {'proto': 5, 'tr': 3}}, {'scenario': 'c20_sp', 'params': {'proto': 6, 'tr': 0}}, {'scenario': 'c20_sp', 'params': {'proto': 6, 'tr': 1}}, {'scenario': 'c20_sp', 'params': {'proto': 6, 'tr': 2}}, {'scenario': 'c20_sp', 'params': {'proto': 6, 'tr': 3}}, {'scenario': 'c20_sp', 'params': {'proto': 0, 'tr': 0, 'longurl': 1}}, {'scenario': 'c20_sp', 'params': {'proto': 1, 'tr': 3, 'longurl': 1}}, {'scenario': 'c20_sp', 'params': {'proto': 1, 'tr': 3, 'wshdr': 1}}, {'scenario': 'c20_sp', 'params': {'proto': 0, 'tr': 3, 'wshdr': 1}}, {'scenario': 'c20_sp', 'params': {'proto': 1, 'tr': 0, 'udp': 1}}, {'scenario': 'c20_sp', 'params': {'proto': 3, 'tr': 0, 'udp': 1}}, {'scenario': 'c20_sp', 'params': {'proto': 0, 'tr': 0, 'udp': 1}}, {'scenario': 'c20_init', 'params': {'no_init': 1, 'cycles': 0}}, {'scenario': 'c20_init', 'params': {'no_init': 1, 'cycles': 2}}, {'scenario': 'c20_init', 'params': {'no_init': 1, 'cycles': 0, 'expires': 3, 'pollers_n': 2}}, {'scenario': 'c20_device', 'params': {}}, {'scenario': 'c20_http', 'params': {'errpage': 0}}, {'scenario': 'c20_http', 'params': {'errpage': 1}}] + C20_ACCEPT2,
         "scenarios": [],
         "assumptions": ["enumeration is exhaustive over k for each (program, seed) but covers one schedule per seed",
                         "the allocator seam is nng_init_params.{malloc,calloc,free}_fn; every nng allocation goes through it"],
